@@ -44,7 +44,7 @@ mod __verif_c03_handler {
         let shared = SharedLogger {
             root: ConfiguredLogger { level: if admitted { LevelFilter::Info } else { LevelFilter::Error }, appenders: vec![i0, i1], children: FnvHashMap::default() },
             appenders: vec![Appender { appender: Box::new(Cap(0, f0)), filters: vec![] }, Appender { appender: Box::new(Cap(1, f1)), filters: vec![] }],
-            err_handler: Box::new(handler),
+            err_handler: Box::new(|e: &anyhow::Error| handler(e)),
         };
         let logger = Logger(Arc::new(ArcSwap::new(Arc::new(shared))));
         let rec = Record::builder().level(Level::Info).build();
